@@ -73,7 +73,7 @@ def required_counters(tier):
         "law.nested": 500,
         "law.bare": 500,
         "bindings_compared": 1000,
-        "L.pep604": 50, "hostile_values": 16,
+        "L.pep604": 50, "hostile_values": 16, "identity_cases": 16,
     }
 
 
@@ -264,9 +264,46 @@ def run_hostile(rec):
                 return
 
 
+def run_identity(rec, rng):
+    """a verdict belongs to the VALUE at the time of the check, not to the object: a tree that was accepted
+    and is then changed in place must be judged again; temporaries (whose id() gets reused) likewise"""
+    import jaxtyping
+
+    F = jaxtyping.Float[np.ndarray, "n"]
+    for ann, good, bad in (
+        (jaxtyping.PyTree[F], lambda: real.np_array((3,)), lambda: real.np_array((3,), "int32")),
+        (jaxtyping.PyTree[F, "T"], lambda: real.np_array((3,)), lambda: real.np_array((4,))),
+        (jaxtyping.PyTree[int], lambda: 1, lambda: "s"),
+    ):
+        def body():
+            tree = [good(), good()]
+            r = [real.check(tree, ann)]
+            tree.append(bad())  # same object, new content
+            r.append(real.check(tree, ann))
+            tree.pop()
+            r.append(real.check(tree, ann))
+            d = {"k": good()}
+            r.append(real.check(d, ann))
+            d["k"] = bad()
+            r.append(real.check(d, ann))
+            for make in (good, bad, bad, good):  # temporaries: freed after each check
+                r.append(real.check([make()], ann))
+            return r
+
+        got = real.in_block_context(body)
+        rec.count("identity_cases")
+        rec.case(("identity", getattr(ann, "__name__", "?")), True)
+        want = ["ok", "no", "ok", "ok", "no", "ok", "no", "no", "ok"]
+        if ann.structure:  # a structure name is bound by the first accepted tree: later trees must have that structure
+            want = ["ok", "no", "ok", "no", "no", "no", "no", "no", "no"]
+        if got != want:
+            rec.violation("identity", {"annotation": getattr(ann, "__name__", "?")}, f"mutated / temporary trees: verdicts {got}, expected {want}", mechanism="verdict-remembered-per-object")
+
+
 def run_shard(rec, seed, shard, tier):
     warnings.filterwarnings("ignore")
     GT.ensure_registered()
+    run_identity(rec, random.Random(f"{seed}/C08/{shard['i']}/identity"))
     for k in range(CASES[tier]):
         key = f"{seed}/C08/{shard['i']}/{k}"
         run_case(rec, random.Random(key), rngkey=key)
